@@ -110,10 +110,17 @@ func propQuota(c QuotaCase) (o pbt.Outcome) {
 		if u.PreloadKB == 0 {
 			continue
 		}
-		up := counter(users[i].Name, metrics.UserMetricUploadBytes)
-		down := counter(users[i].Name, metrics.UserMetricDownloadBytes)
-		_ = down
-		pbm := metrics.ToMetricPB(up)
+		// A restarted server reads the dump before any of the user's counters
+		// exists in the process; a long-running one may load it over registered
+		// counters. Both happen: even user indices model the restart.
+		var pbm *mpb.Metric
+		if i%2 == 0 {
+			pbm = &mpb.Metric{Name: proto.String(metrics.UserMetricUploadBytes), Type: mpb.MetricType_COUNTER_TIME_SERIES.Enum()}
+		} else {
+			up := counter(users[i].Name, metrics.UserMetricUploadBytes)
+			counter(users[i].Name, metrics.UserMetricDownloadBytes)
+			pbm = metrics.ToMetricPB(up)
+		}
 		ts := time.Now().Add(-time.Duration(u.PreAgeH) * time.Hour).UnixMilli()
 		pbm.History = nil
 		v := u.PreloadKB * 1024
